@@ -152,7 +152,8 @@ CORE_KINDS = ["sb21", "sb20", "advp", "mbi_class", "mbi_cfg", "otfad", "iee", "b
 def histories(tier: str) -> list:
     """quick: every single construction, every ordered pair over the twelve class-constructed kinds, and for the four
     config/CLI-driven kinds (slow: 1-4 s each) the pairs with themselves, with their sibling and with three core kinds;
-    thorough: all sequences up to length 2 over all 18 kinds and up to length 3 over all but `hab`."""
+    thorough: all sequences up to length 2 over all kinds, all sequences of length 3 over the class-constructed kinds, and
+    the sandwiches X, y, X for the state-carrying kinds X and every kind y."""
     if tier == "quick":
         out = [[k] for k in KINDS]
         out += [list(t) for t in itertools.product(CORE_KINDS, repeat=2)]
@@ -162,10 +163,14 @@ def histories(tier: str) -> list:
                     if h not in out:
                         out.append(h)
         return out
-    out = []
-    for ln in range(1, 4):
-        pool = KINDS if (ln <= 2) else [k for k in KINDS if k != "hab"]  # hab (CLI, 2-4 s) only up to length 2
-        out += [list(t) for t in itertools.product(pool, repeat=ln)]
+    out = [list(t) for ln in (1, 2) for t in itertools.product(KINDS, repeat=ln)]
+    # length 3: all sequences over the class-constructed kinds; for the kinds that carry state between builds (shared
+    # configuration object, shared builder object, shared workspace) the sandwiches X, y, X with every kind y in between
+    out += [list(t) for t in itertools.product(CORE_KINDS, repeat=3)]
+    for x in ("sb21cfg_same", "mbi_cfg_same", "mbi_cfg_sameobj", "hab_same"):
+        for y in KINDS:
+            if [x, y, x] not in out:
+                out.append([x, y, x])
     return out
 
 
